@@ -199,7 +199,10 @@ func (p idxPolicy) Substitute(ev *engine.HintEvent) ([]*big.Int, bool) {
 
 var c13Corruptions = []string{"leaf", "eval_own_c0", "eval_own_c1", "eval_other_c0", "eval_other_c1", "sibling_initial", "sibling_step", "beta_c0", "beta_c1", "alpha_c0", "alpha_c1", "reduced_opening_c0", "reduced_opening_c1", "final_coeff_c0", "final_coeff_c1", "index_low_bit", "index_mid_bit", "index_high_bit", "cap", "commit_cap",
 	// differences that a comparison of packed pairs (v0 + v1*2^32) cannot see
-	"eval_own_p32", "eval_own_m32", "final_coeff0_p32", "final_coeff0_m32"}
+	"eval_own_p32", "eval_own_m32", "final_coeff0_p32", "final_coeff0_m32",
+	// the running value itself shifted by such a difference (the claimed evaluations stay the
+	// committed ones, so every Merkle path is still valid)
+	"running_value_p32", "running_value_m32"}
 
 func init() {
 	register("C13", func() *fw.Prop {
@@ -616,6 +619,9 @@ func init() {
 						in.finalPoly = append([]ref.E(nil), base.finalPoly...)
 						var one fr.Element
 						one.SetOne()
+						if r.Intn(2) == 0 {
+							one.Neg(&one) // either direction: a one-sided comparison must not hide it
+						}
 						co := 0
 						base13 := corr
 						if strings.HasSuffix(corr, "_c1") {
@@ -636,6 +642,12 @@ func init() {
 							st := r.Intn(len(in.q.Steps))
 							pos := (idx >> uint(4*st)) & 15
 							in.q.Steps[st].Evals[pos] = shift32(in.q.Steps[st].Evals[pos], base13 == "eval_own_p32")
+						case "running_value_p32", "running_value_m32":
+							last := len(in.reduced) - 1
+							x := ref.SubgroupX(in.raw%(uint64(1)<<uint(lde)), lde)
+							d := shift32(ref.EZero, base13 == "running_value_p32")
+							den := ref.ESub(ref.EFrom(x), s.Inst.Batches[last].Point)
+							in.reduced[last] = ref.ESub(in.reduced[last], ref.EMul(d, den))
 						case "final_coeff0_p32", "final_coeff0_m32":
 							in.finalPoly[0] = shift32(in.finalPoly[0], base13 == "final_coeff0_p32")
 						case "leaf":
